@@ -326,13 +326,29 @@ func ParseAuthorization(header string) (scheme string, origin, destination spec.
 	if len(parts) != 2 {
 		return
 	}
+	// The parameters are a comma separated list of name=token or
+	// name="quoted-string" pairs (RFC 7235). Anything else makes the header
+	// malformed, which is reported by returning no values at all.
 	for _, data := range strings.Split(parts[1], ",") {
+		data = strings.Trim(data, " \t")
+		if data == "" {
+			continue // empty list members are allowed
+		}
 		pair := strings.SplitN(data, "=", 2)
 		if len(pair) != 2 {
-			continue
+			return scheme, "", "", "", ""
 		}
 		name := strings.TrimSpace(pair[0])
-		value := strings.Trim(strings.TrimSpace(pair[1]), "\"")
+		value := strings.Trim(pair[1], " \t")
+		if strings.HasPrefix(value, "\"") {
+			if len(value) < 2 || !strings.HasSuffix(value, "\"") {
+				return scheme, "", "", "", ""
+			}
+			value = value[1 : len(value)-1]
+		}
+		if strings.ContainsAny(value, "\"\\") {
+			return scheme, "", "", "", ""
+		}
 		if name == "origin" {
 			origin = spec.ServerName(value)
 		}
